@@ -253,6 +253,52 @@ PROPS = {
         assumptions=[],
         trusted_base=[],
     ),
+    'C07': dict(
+        level='proof',
+        text='proved on the real code: every reader primitive (read_byte, read_bytes for any size, read_variable_int for any VLQ '
+             'incl. padding, chunk and file headers incl. longer headers, read_message per status family with and without a '
+             'running-status data byte, read_sysex and read_meta_message for any payload length), the dispatch rules of one '
+             'iteration of the read_track event loop (loop cut, any position / running status), build_meta_message per meta type '
+             '(incl. unknown types keeping data and delta), write_chunk, the track writer on every pair of event families with '
+             'symbolic attribute values and delta times (exact canonical bytes incl. running-status decisions and end_of_track '
+             'folding), the refusals (six real-time types, negative and non-integer times, type 0 with != 1 track: ValueError, '
+             'nothing written), the file header and track order of save/_load, fix_end_of_track for any track. The end-to-end '
+             'composition load(save(f)) over whole files and the byte-mutation fixed point are bounded stand-ins with an '
+             'independent reference codec.',
+        note='trusted: pyvc, z3/cvc5; files modelled as (content, position) like io.BytesIO; messages in pairs are real objects '
+             '(bytes(), is_realtime, from_bytes ... are the real code); delta times below 2**28 in the pair proofs; the induction '
+             'from event pairs to whole tracks (the writer state is only the running status) and the reader/writer composition '
+             'are not mechanised; known finding K1 (smpte hours >= 32) applies to meta events read from a track too',
+        clauses=[
+            ['reader primitives, any sizes/lengths (read_byte/bytes/variable_int/chunk+file header/message/sysex/meta)', 'P'],
+            ['read_track: one arbitrary iteration of the event loop (dispatch, running status, chunk end)', 'P'],
+            ['write_track on all pairs of event families: exact canonical encoding, inputs unchanged', 'P'],
+            ['refusals raise ValueError and write nothing; save() header and track order; _load header use', 'P'],
+            ['build_meta_message: payload of a valid meta message -> that message with the delta (unknown types too)', 'P'],
+            ['load(save(f)) == f with end_of_track fixed, whole files; load-save-load fixed point under byte mutation', 'B'],
+        ],
+        assumptions=['file objects behave like io.BytesIO', 'event-pair coverage lifts to whole tracks (writer state = running status only)'],
+        trusted_base=[],
+    ),
+    'C08': dict(
+        level='proof',
+        text='write direction: the proved pairwise writer contract IS the canonical SMF encoding (minimal delta VLQs through the '
+             'proved encode_variable_int contract, running status exactly when the previous event is a channel message with the '
+             'same status and never across meta/sysex, sysex as F0 vlq(len+1) data F7, meta as FF type vlq(len) payload, FF 2F 00 '
+             'last, exact chunk length); read direction: read_variable_int is proved for padded VLQs, read_file_header for any '
+             'header length >= 6, read_message/read_sysex with clip on/off (clip differs only by replacing bytes > 127 with 127), '
+             'DebugFileWrapper is proved transparent, the event-loop dispatch is proved for any running status. The statement over '
+             'ALL alternative encodings of whole event lists is a bounded stand-in against an independent reference encoder/decoder.',
+        note='same trusted base as C07; the reference codec in contracts/b_files.py is written from the SMF specification and '
+             'shares no code with mido',
+        clauses=[
+            ['canonical bytes for all pairs of event families (write direction)', 'P'],
+            ['padded VLQs, long headers, clip semantics, debug wrapper transparency, event-loop dispatch (read direction)', 'P'],
+            ['all legal alternative encodings of whole files load to the same events (debug/clip on/off)', 'B'],
+        ],
+        assumptions=['file objects behave like io.BytesIO'],
+        trusted_base=[],
+    ),
     'C02': dict(
         level='proof',
         text='Message.from_bytes / decode_message are verified against the MIDI 1.0 well-formedness predicate for integer '
@@ -273,4 +319,4 @@ PROPS = {
 }
 
 NOT_APPLICABLE = {pid: _PENDING for pid in
-                  ['C07', 'C08', 'C10', 'C11', 'C18', 'C19', 'C20']}
+                  ['C10', 'C11', 'C18', 'C19', 'C20']}
